@@ -16,7 +16,7 @@ func init() { reg("C10", C10) }
 
 // C10: shadow-copy monitor for ROM.BusReader / ROM.BusWriter.
 func C10(r *vf.Run) {
-	r.Rule = "every bank of images of 32-256 KiB x boundary-directed offsets x read-chunk sizes x write-length histories drawn to end at, one before and beyond the bank end; the whole image is diffed against a shadow after every call; plus several readers/writers obtained from one ROM and used in interleaved order; a cell is (api, offset class, history shape, end position)"
+	r.Rule = "every bank of images of 32-256 KiB (and one case in 128 a 2-8 MiB image, banks up to $FF) x boundary-directed offsets x read-chunk sizes x write-length histories drawn to end at, one before and beyond the bank end; the whole image is diffed against a shadow after every call; plus several readers/writers obtained from one ROM and used in interleaved order; a cell is (api, offset class, history shape, end position)"
 	r.Assume = []string{"banks only partly inside the image are skipped (the statement speaks of banks inside the image)"}
 
 	offClass := func(off uint32) string {
@@ -85,6 +85,11 @@ func C10(r *vf.Run) {
 		if g.Intn(4) == 0 {
 			extra = 1 + g.Intn(0x7FFF)
 		}
+		big := g.Intn(128) == 0
+		if big {
+			// a large cartridge: banks beyond $3F / $7F / $BF exist (4-8 MiB images)
+			nb = []int{64, 65, 127, 128, 129, 192, 255, 256}[g.Intn(8)]
+		}
 		img := g.Bytes(nb*0x8000 + extra)
 		rom, err := snes.NewROM("c10", img)
 		if err != nil {
@@ -93,6 +98,13 @@ func C10(r *vf.Run) {
 		}
 		e := &env{rom, append([]byte(nil), img...)}
 		bank := uint32(g.Intn(nb))
+		if big {
+			bank = uint32([]int{nb - 1, nb - 1, nb / 2, 0x3F, 0x40, 0x7F, 0x80, 0xBF, 0xC0, g.Intn(nb)}[g.Intn(10)])
+			if int(bank) >= nb {
+				bank = uint32(nb - 1)
+			}
+			cells["big-image:bank>=40"]++
+		}
 		var off uint32
 		switch g.Intn(8) {
 		case 0:
